@@ -96,6 +96,26 @@ def run(tier):
     rows, crashed = vlib.run_hz_jobs(hz, "workflow", tj, nproc=8)
     if crashed:
         run.violation({"kind": "crash"}, {"job": crashed[0]["first_missing"], "stderr": crashed[0]["stderr"][-1000:]})
+    # simultaneous calls (a device self-test and an application drawing randomness at the same time): groups of sixteen
+    # calls on their own sources, healthy and stuck contents side by side, released together, three rounds
+    cj = []
+    for grp in range(1, (7 if thorough else 4)):
+        for g in range(16):
+            jid += 1
+            nb = rng.choice([40, 64, 200, 1279, 1280, 2048, 4096]) if grp % 2 else rng.choice([16, 24, 39, 40, 1280, 4096])
+            if g % 2 == 0:
+                st = {"kind": "seeded", "seed": rng.randrange(1 << 40), "len": -1}
+            else:
+                st = {"kind": "periodic", "period": [rng.choice([0x00, 0xFF, 0x5A, 0x0F])] * 3 + [rng.randrange(256)], "len": -1}
+            j = wf.mk_single(jid, nb, stream=st, policy=rng.choice(["full", "fixed"]), size=97, rseed=jid, tag="simultaneous group %d" % grp)
+            j["conc"] = grp
+            cj.append(j)
+    crow, ccr = vlib.run_hz_jobs(hz, "workflow", cj, nproc=1)
+    if ccr:
+        run.violation({"kind": "crash-simultaneous"}, {"job": ccr[0]["first_missing"], "stderr": ccr[0]["stderr"][-1000:]})
+    rows.update(crow)
+    tj += cj
+    run.extra["simultaneous_calls"] = len(cj)
     events = [single_trace_event(j, rows[j["id"]]) for j in tj if rows.get(j["id"])]
     acc, rej, gen = vlib.validate_trace("TraceSingle", events, timeout=3000, max_rej=4)
     run.states += acc; run.transitions += gen; run.traces += acc; run.evaluations += len(events)
